@@ -18,6 +18,10 @@ CHECKS = {
             "TLA+ model checking (Dataflow) + TLC trace validation (EngineTrace C02 clauses)", "§4 C02"),
     "C03": ("hgv_engine", "TLC enumerates every program of the bounded family (all DAGs over the vocabulary with <= 3 (quick) / 4 (thorough) source+compute nodes x tick histories x start times) and computes what each must produce (Dataflow.tla; invariants checked on every state); each program runs on the compiled tree and is compared stream by stream; every trace is validated event by event by EngineTrace (user code runs iff an active input ticked or an own wake-up is due and required inputs are valid; inputs read are the producers' latest values; output is the function of them).",
             "TLC model checking of an exhaustive bounded program family + spec->code replay + TLC trace validation", "§4 C03"),
+    "C04": ("hgv_coll", "Collections.tla (level B: slots live / pending-erase, added / removed / modified bitsets with both cancellation branches, lazy delta roll, monotone record_modified with parent propagation, tick-window ring) is model-checked exhaustively by TLC against the level-A invariants (flags truthful, parent rule, no stale delta); its behaviours, simulated behaviours and op-dense random scripts over 9 shapes (TS, TSS, TSD, TSL, TSB, TSW and three nestings) run through the real mutation API on the compiled tree with one producer-side view and two passive consumers probing EVERY cycle (one starting late); CollTrace.tla (level A, needs only the op script) recomputes what producer and every consumer must read in every cycle - also idle ones - and rejects any disagreement (C04.* clauses).",
+            "TLC exhaustive model checking of Collections.tla + behaviour replay + TLC trace validation against CollTrace.tla (level A)", "§4 C04"),
+    "C05": ("hgv_coll", "Same pipeline as C04; CollTrace.tla / Delta.tla state the C05 conditions literally (value = previous value + delta from empty, added and removed disjoint, added present, removed absent and previously present, cancelled mutations leave no trace, window = last N pushes in order, valid only from the minimum count) on consecutive observations of every collection position; thorough tier crosses slot-capacity boundaries and slot reuse after erase with up to 20 keys / 30 cycles.",
+            "TLC exhaustive model checking of Collections.tla + behaviour replay + TLC trace validation against CollTrace.tla / Delta.tla", "§4 C05"),
     "C06": ("hgv_engine", "Each program is wired in several admissible statement orders; all runs must produce the streams Dataflow.tla specifies (hence identical); sharing scenarios check that equal (definition, inputs, scalars) may share while differing nodes and all sinks stay distinct.",
             "Dataflow.tla prediction by TLC + differential replay of statement-order permutations / sharing scenarios on the compiled tree", "§4 C06"),
     "C07": ("hgv_iso", "Isolation.tla (process-wide registries monotone, builder recipes immutable, seed global state copied per executor, per-executor state private) is model-checked exhaustively: what an executor has produced after k phases is a function of its program alone, no executor's global state holds another program's keys; its histories - Build / Make / Step interleaved at executor-phase granularity, executors on their own threads, builders reused - are replayed into the real code through GraphExecutorBuilder::phase_runner, plus free-running groups of 2-8 concurrent executors and 8 executors created at the same instant in a fresh process; every executor's trace must equal, event by event, the trace of its program run alone in a fresh process (programs with node state, global state written and probed across programs, recordings, map_ children, feedback, self-scheduling).",
@@ -40,9 +44,15 @@ CHECKS = {
             "TLA+ model checking (Dataflow) + spec->code replay + TLC trace validation (EngineTrace C15 clauses)", "§4 C15"),
     "C18": ("hgv_engine", "NodeSched.tla - a level-B model of NodeScheduler + the graph's per-node slot + the post-evaluation re-arm rule, driven by an arbitrary user program (TLC chooses the scheduler operations of every activation and the input tick times) - is model-checked exhaustively against the level-A invariants TagsAgree / NoMissedWake / NotEarly / SlotCovers; its simulated behaviours and op-dense random scripts are replayed into a scripted scheduler node on the compiled tree (alone, in a nested child, two per graph); every recorded trace (each operation, every query answer, every activation) is validated by the level-A trace specification SchedTrace with TLC; activation times are additionally compared with the level-B prediction (DRIFT only).",
             "TLC exhaustive model checking of NodeSched.tla + behaviour replay + TLC trace validation against SchedTrace.tla", "§4 C18"),
+    "C19": ("hgv_resolve", "Resolution.tla: the scenario (overload family x argument tuple x registration order) is TLC state; level A (matching under one substitution, output = substitution, no match -> error, shared best rank -> ambiguity error, unique minimum rank, same outcome in every registration order) is checked as invariants against level B (sequential matcher, the documented rank formula, stable sort + tie test) on every enumerated scenario; each scenario is replayed into the real OperatorRegistry with overloads built at run time from the tree's own pattern / rank API and every recorded resolution (selected label or error class, per-candidate ranks, bindings, output type, all orders of the family) is validated by ResolutionTrace.tla (level A, 13 clauses); rank-formula disagreements are DRIFT.",
+            "TLC exhaustive model checking of Resolution.tla (families x argument tuples x registration orders) + replay + TLC trace validation", "§4 C19"),
+    "C20": ("hgv_coll", "For every scripted tick history over 9 shapes: graph 1 records the writer's stream (dense_record), graph 2 replays the recording and records again; RecordReplayTrace.tla (level A) requires the two recordings equal entry by entry (same cycles, same deltas), the replayed consumer observations equal the original ones per cycle, and - per tick - apply_delta of the captured delta onto a copy of the pre-tick state to give the post-tick state and re-capture to give the same delta (Delta.tla algebra).",
+            "differential replay on the compiled tree + TLC trace validation against RecordReplayTrace.tla / Delta.tla; Collections.tla model-checked as generator", "§4 C20"),
 }
 
-ENGINES = {"hgv_iso": ("/verif/harness/iso", "several builders / executors in one process on several threads, gated at executor-phase granularity by the public phase_runner"),
+ENGINES = {"hgv_coll": ("/verif/harness/coll", "time-series data-layer driver: scripted writer on 9 output shapes through the real mutation API, passive probes every cycle, capture/apply shadow, record -> replay second graph"),
+           "hgv_resolve": ("/verif/harness/resolve", "operator-resolution driver: run-time constructed overload families registered in a given order, resolve, report selection / ranks / bindings / output type"),
+           "hgv_iso": ("/verif/harness/iso", "several builders / executors in one process on several threads, gated at executor-phase granularity by the public phase_runner"),
            "hgv_engine": ("/verif/harness/engine", "native interpreter-style driver linked against the compiled working tree; scenarios in, ndjson traces out")}
 
 
